@@ -58,6 +58,15 @@ def check_meta(pid, tier, seed, replay):
     comps = cfg["components"]
     want_release = tier == "thorough" or cfg.get("release_in_quick", False)
 
+    # the extraction targets of every component belong to this check's build: a component driver must never be
+    # compiled from a stale extraction
+    ext = list(cfg.get("extract", []))
+    for comp in comps:
+        for e in comp_cfg(comp).get("extract", [comp.get("prop")] if comp.get("prop") else []):
+            if e and e not in ext:
+                ext.append(e)
+    proof = build_proofs(pid, dict(cfg, extract=ext), log, tier)
+
     built = {}
     for comp in comps:
         built[comp_name(comp)] = build_component(comp, log, want_release and comp.get("release", True))
@@ -101,8 +110,6 @@ def check_meta(pid, tier, seed, replay):
             print("VIOLATION property=%s replay=%s" % (pid, replay))
             return 1
         return 0
-
-    proof = build_proofs(pid, cfg, log, tier)
 
     # ---- jobs: (component, build, envname, env, start, count) ; corpus first
     streams = []   # (tagprefix, name, build, env, lines)
